@@ -328,8 +328,8 @@ class BuiltinsMixin:
         if isinstance(C, ClassInfo) and isinstance(K, ClassInfo):
             return smt.mk_bool(C.is_subclass(K))
         if isinstance(K, ClassInfo):
-            t = smt.simp(z3.And(Val.is_ref(cv), self.sub_term(Val.r(cv), K)))
-            return self.to_val_bool(t)
+            # a class object that derives from K (open universe, with the facts up K's mro)
+            return self.to_val_bool(smt.simp(self.type_formula(cv, f'type<={K.qualname if not K.builtin else K.name}')))
         self.unsupported('issubclass with dynamic class')
 
     def bi_id(self, args, kwargs):
